@@ -36,10 +36,11 @@ def to_poly(v):
 
 
 class BPEval:
-    def __init__(self, env=None, input_fn=None, floatcast_names=()):
+    def __init__(self, env=None, input_fn=None, floatcast_names=(), call_fn=None):
         self.env = dict(env or {})
         self.input_fn = input_fn
         self.floatcast = set(floatcast_names)
+        self.call_fn = call_fn
 
     def ev(self, node):
         if isinstance(node, ast.Constant):
@@ -55,6 +56,10 @@ class BPEval:
                 return self.env[node.id]
             return Poly.sym(node.id)
         if isinstance(node, ast.Attribute):
+            if self.input_fn is not None:
+                v = self.input_fn(node)
+                if v is not None:
+                    return v
             d = dotted(node)
             if d in ('np.nan', 'numpy.nan'):
                 return Poly.sym('NaN')
@@ -107,6 +112,10 @@ class BPEval:
             raise NotInDomain(f'operator {type(op).__name__}')
         if isinstance(node, ast.Call):
             cn = dotted(node.func)
+            if self.call_fn is not None:
+                r = self.call_fn(node, self)
+                if r is not None:
+                    return r
             m = INTCAST.match(cn or '')
             if m and len(node.args) == 1:
                 v = self.ev(node.args[0])
